@@ -12,7 +12,8 @@ LEVEL = "exploration"
 RULE = (
     "Hypothesis draws (kernel x resampler x clustering x blobs on/off x d x zero-likelihood region x case seed x scripted completion order); "
     "each case runs the same seeded sampler under every evaluation mode of its group - scalar map, vectorised (no blobs), a pool-like object "
-    "whose map evaluates items in a scripted permutation, pool=1, and (thorough tier, and 1 quick case in 6) a real 2-worker pool - and compares. "
+    "whose map evaluates items in a scripted permutation, an executor-style object (submit+map) whose futures complete out of order, a real "
+    "ThreadPoolExecutor(4), pool=1, and (thorough tier, and 1 quick case in 6) a real 2-worker pool - and compares. "
     "Non-trivial = >=2 modes compared over >=3 annealing iterations. distinct = case hash."
 )
 ASSUMPTIONS = [
@@ -49,11 +50,14 @@ def run_mode(case, mode, pool, check_calls=True):
     with quiet():
         lib_call(s.run, n_total=48, progress=False, what=f"Sampler.run [{label}]")
     o = lib_call(s.posterior, trim_importance_weights=False, what="posterior")
+    pobj = getattr(core.config, "pool", None)
+    if hasattr(pobj, "shutdown"):
+        pobj.shutdown()
     return history_snapshot(st_), np.asarray(o[1]), float(s.evidence()[0]), t.n_points
 
 
 def execute(case, force_real=False):
-    modes = [("scalar", None), ("scalar", "permuting"), ("scalar", 1)]
+    modes = [("scalar", None), ("scalar", "permuting"), ("scalar", 1), ("scalar", "executor"), ("scalar", "threads")]
     if not case["blobs"]:
         modes.insert(1, ("vector", None))
     real = case["real_pool"] or force_real
@@ -61,7 +65,7 @@ def execute(case, force_real=False):
         modes.append(("scalar", 2))
     ref = None
     for mode, pool in modes:
-        snap, w, z, npts = run_mode(case, mode, pool, check_calls=(pool != 2))
+        snap, w, z, npts = run_mode(case, mode, pool, check_calls=(pool not in (2, "threads")))
         if ref is None:
             ref = (snap, w, z, f"mode={mode},pool={pool!r}")
             continue
